@@ -138,8 +138,30 @@ def codec_cases(tier):
     return out
 
 
+def lemmas():
+    """L8.unique: two strictly ascending lists with the same members are the same list.  Proved here: the induction step (if the
+    first k positions agree, position k agrees) and the length part (if all common positions agree, the lengths agree);
+    the induction over k is the usual meta-argument.  Membership is given by witness functions (pa: position in A of B[j])."""
+    import z3
+    A = z3.Array("A", z3.IntSort(), z3.IntSort())
+    B = z3.Array("B", z3.IntSort(), z3.IntSort())
+    n, m, i, j, k = z3.Ints("n m i j k")
+    pa = z3.Function("pa", z3.IntSort(), z3.IntSort())
+    pb = z3.Function("pb", z3.IntSort(), z3.IntSort())
+    strictA = z3.ForAll([i, j], z3.Implies(z3.And(0 <= i, i < j, j < n), A[i] < A[j]))
+    strictB = z3.ForAll([i, j], z3.Implies(z3.And(0 <= i, i < j, j < m), B[i] < B[j]))
+    a_in_b = z3.ForAll([i], z3.Implies(z3.And(0 <= i, i < n), z3.And(0 <= pb(i), pb(i) < m, B[pb(i)] == A[i])))
+    b_in_a = z3.ForAll([j], z3.Implies(z3.And(0 <= j, j < m), z3.And(0 <= pa(j), pa(j) < n, A[pa(j)] == B[j])))
+    base = [n >= 0, m >= 0, strictA, strictB, a_in_b, b_in_a]
+    agree_k = z3.ForAll([i], z3.Implies(z3.And(0 <= i, i < k), A[i] == B[i]))
+    agree_all = z3.ForAll([i], z3.Implies(z3.And(0 <= i, i < n, i < m), A[i] == B[i]))
+    return [("L8.unique.step", base + [0 <= k, k < n, k < m, agree_k], A[k] == B[k], {}),
+            ("L8.unique.length", base + [agree_all], n == m, {})]
+
+
 def main(chk):
-    chk.prove(["c_port", "c_port_text"])
+    chk.prove(["c_port", "c_codec", "c_port_text"])
+    chk.lemmas(lemmas())
     chk.replay_refuted()
     for name, fn, cases, bound in [
         ("Port(line) semantics + self-assignment histories through items/ports/sport", _semantics_and_views, operand_cases(chk.tier),
@@ -162,8 +184,11 @@ def main(chk):
         "the text path of the setters is proved for operands written as numbers (named ports go through the finite tables of C09), over an abstract text model: a "
         "line is its whitespace tokens (ghost WS_LEN/WS_ARR = assumed model of str.split and ' '.join), a decimal token is ISDIGIT/STRINT with the assumed law "
         "int(str(n)) == n, operands >= 1; sorted() leaves an ascending list unchanged (assumed)",
-        "helpers.ports_to_string / string_to_ports / _port_range_min_max: assumed codec law (decoding the compact text of a strictly ascending list within 1..65535 "
-        "gives the list back) in the contract of Port.sport.fset; the codec itself: bounded stand-in only (string and set iteration order semantics)",
+        "helpers.ports_to_string (encoder) is proved: the comma tokens of its result denote exactly the given ports, over the abstract token model "
+        "(NUMSTR/RNGSTR shaped strings with LO/HI, ','.join as a ghost token list); helpers.string_to_ports / _port_range_min_max (decoder: sets, named tuples, "
+        "set iteration order) is an assumed contract stated semantically, checked natively by the bounded codec clauses",
+        "lemma L8.unique (strictly ascending lists with the same members are equal): induction step and length part proved, the induction is a meta-argument; "
+        "its instance is assumed at the entry of Port.ports.fset",
         "self-assignment contracts require the class invariant of a non-empty Port (operator in OPERATORS, operands valid, ports == meaning of the operands), which the "
         "contract of Port.line.fset establishes",
         "z3 5.1 / cvc5 trusted",
@@ -174,7 +199,7 @@ def main(chk):
         "(sound/complete/ascending clauses), and Port._ports_to_items is its inverse on every op-shaped port list (meaning and text "
         "clauses, index safety, the neq removal loop by invariant); the text path for numeric operands: Port._line__items_to_ints (refusals exactly "
         "as Cisco's grammar requires, operands sorted), Port.line.fset (operator, operands, port list == meaning), and Port.items/ports/sport.fset assigned their "
-        "own values keep operator, operands and port set. Bounded (labelled, not counted as proved): the string codec and the same setters natively, named "
+        "own values keep operator, operands and port set; helpers.ports_to_string encodes exactly the given set (run-length loop by invariant). Bounded (labelled, not counted as proved): the string codec and the same setters natively, named "
         "ports included, on the stated grids with an independent decoder.",
         trusted_base=["z3 5.1.0", "cvc5 1.0.3 (fallback)", "pyvc VC generator", "spec/portsem.py reference semantics"])
 
